@@ -844,7 +844,21 @@ where
     fn validate_header(&self) -> Result<()> {
         let header_ptr = self.header()?;
         let header = unsafe { header_ptr.as_ref() };
-        header.validate::<T>()
+        header.validate::<T>()?;
+
+        // The header comes from the file and is untrusted: every element the header promises
+        // (up to `capacity`, and `length <= capacity`) must lie inside the mapping, otherwise
+        // `get`/`as_slice` would read past it.
+        let mapped = self.mmap.as_ref().map(|m| m.size()).unwrap_or(0);
+        let needed = (header.capacity as usize)
+            .checked_mul(std::mem::size_of::<T>())
+            .and_then(|bytes| bytes.checked_add(HEADER_SIZE));
+        match needed {
+            Some(needed) if needed <= mapped => Ok(()),
+            _ => Err(ZiporaError::invalid_data(
+                "Header capacity exceeds the size of the mapped file",
+            )),
+        }
     }
 
     /// Get header pointer
